@@ -14,6 +14,7 @@ KEYS = {
     'MalformedMessageData': ['?server_address_index', '?server_port', '?mm_transport_flags', '?$mm_payload'],
     'AddressEventCount': ['ae_type', '?ae_code', 'ae_address_index', '?ae_transport_flags', 'ae_count'],
     'StringItem': ['$data'],
+    'IndexListItem': ['%list'],
 }
 
 
@@ -22,6 +23,9 @@ def member_eq(f):
     f = f.lstrip('?')
     s = f.startswith('$')
     f = f.lstrip('$')
+    if f.startswith('%'):      # a vector member: content identity (equal id <=> same length and elements), see bt.h
+        f = f.lstrip('%')
+        return '(a.%s.id == b.%s.id)' % (f, f)
     if opt:
         v = ('(a.%s.val.id == b.%s.val.id && a.%s.val.len == b.%s.val.len)' if s else '(a.%s.val == b.%s.val)')
         v = v % ((f,) * (4 if s else 2))
@@ -31,6 +35,11 @@ def member_eq(f):
     return '(a.%s == b.%s)' % (f, f)
 
 
+SEQ_HELPERS = '''/* std::vector<index_t>: == compares length and elements = content identity; data()/size() feed the byte hash */
+static inline _Bool seq_u32__eq(struct seq_u32 *a, struct seq_u32 *b) { return a->id == b->id; }
+static inline unsigned int *seq_u32__data(struct seq_u32 *s) { return (unsigned int *)s->id; }
+unsigned long hash_value__p_u32_u64_u32(unsigned int *p, unsigned long n, unsigned int seed) { return __CPROVER_uninterpreted_hbytes((unsigned long)p, n, seed); }
+'''
 for rec, fields in KEYS.items():
     fns = [(rec + '::operator==', None)]
     hash_own = rec not in ('ClassType', 'Question')      # these two use the generic object-representation hash
@@ -39,10 +48,10 @@ for rec, fields in KEYS.items():
     spec = ' && '.join(member_eq(f) for f in fields)
     h = '''
   struct %(r)s a, b;
-  g_exc = 0;
+  g_exc = 0;%(extra)s
   _Bool eq = %(r)s__op_eq(&a, &b);
   __CPROVER_assert(eq == (%(spec)s), "operator== is exactly member-wise equality (all members of the key)");
-''' % {'r': rec, 'spec': spec}
+''' % {'r': rec, 'spec': spec, 'extra': ''.join('\n  __CPROVER_assume(a.%s.id != b.%s.id || a.%s.n == b.%s.n);   /* content identity determines the length */' % ((f.lstrip('%'),) * 4) for f in fields if f.startswith('%'))}
     if hash_own:
         h += '''
   unsigned long ha = %(r)s__hash_value(&a), hb = %(r)s__hash_value(&b);
@@ -50,7 +59,7 @@ for rec, fields in KEYS.items():
 ''' % {'r': rec}
     h += '  if (eq) { CANARY("equal pair reachable"); }\n'
     UNITS.append(BmcUnit('bt.eqhash.' + rec, fns, h, 'bt.h', unwind=1, bound_text=None, props=['C11', 'C01'],
-                         stubs=['hash_value__p_\\w+', 'opt_\\w+', 'cstring__\\w+'], timeout=600,
+                         stubs=['hash_value__p_\\w+', 'opt_\\w+', 'cstring__\\w+', 'seq_u32__\\w+'], timeout=600, post_c=SEQ_HELPERS if rec == 'IndexListItem' else '',
                          note='loop-free: complete for all pairs of values. CRC32 uninterpreted (A9).'))
 
 
